@@ -8,6 +8,8 @@ CONSTANTS
  MaxFaults = 4
  MaxSeeks = 0
  Conc = 2
+ LinkEntries = FALSE
+ Directs = {"none"}
  StoreAnchor = TRUE
  RelNR = TRUE
  FixLeak = TRUE
